@@ -58,7 +58,8 @@ def coq_op(op):
     return "OFlush"
 
 
-IDS_OK = ["diana", "u2", "client_1", "c", "x:y", "3:abc", "a;b", " lead", "trail ", "new\nline", "åäö", "0", "a:;:b"]
+IDS_OK = ["diana", "u2", "client_1", "c", "x:y", "3:abc", "a;b", " lead", "trail ", "new\nline", "åäö", "0", "a:;:b",
+          ";lead", ";a;b", "dian", "client_12"]        # a single ';' at the start is legal; string-prefix relations
 IDS_BAD = ["a;;b", "semi;", ";;", "x;;;y", ";"]
 
 
